@@ -162,8 +162,9 @@ class Check:
             check_evidence(ev)
         except Exception as e:  # evidence must still be written; an incomplete one is an infrastructure error
             bad = e
-        os.makedirs(os.path.join(VERIF, 'evidence'), exist_ok=True)
-        p = os.path.join(VERIF, 'evidence', self.pid + '.json')
+        evdir = os.environ.get('VERIF_EVIDENCE_DIR') or os.path.join(VERIF, 'evidence')
+        os.makedirs(evdir, exist_ok=True)
+        p = os.path.join(evdir, self.pid + '.json')
         with open(p + '.tmp', 'w') as f:
             json.dump(ev, f, indent=1, default=_default)
             f.write('\n')
